@@ -302,7 +302,7 @@ Numerals(n) == {d \in SeqsFromTo(D019, 1, n) : Canonical(d)}
 Max1 == <<2, 0>> \o [i \in 1..14 |-> 9]                                \* MAX_MONEY - 1
 Big16 == {<<2>> \o <<x>> \o [i \in 1..13 |-> y] \o <<w>> : x \in {0, 1}, y \in {0, 9}, w \in {0, 1, 9}}
 \* up to 16 digits: a head, a run of zeros, a tail
-Sparse16 == {h \o Zeros(k) \o t : h \in Numerals(3), k \in 0..10, t \in SeqsUpTo(D019, 3)}
+Sparse16 == {h \o Zeros(k) \o t : h \in Numerals(3) \ {<<0>>}, k \in 0..10, t \in SeqsUpTo(D019, 3)}
 RenderDomain == Numerals(9) \cup Big16 \cup Sparse16 \cup {MaxZat, Max1, <<1>> \o Zeros(8), [i \in 1..8 |-> 9], <<1>> \o Zeros(7) \o <<1>>,
                                              <<1>> \o Zeros(15), <<9>> \o Zeros(15)}
 ParseDomain == {[jk |-> FALSE, ip |-> ip, pt |-> pt, fp |-> fp] :
